@@ -823,6 +823,7 @@ class PathParser(object):
                 if (string[0], string[-1]) in self._QUOTES:
                     string = string[1:-1]
                 args.append(string)
+                self.next_token() # )
 
         cls = _nodetest_map.get(name)
         if not cls:
